@@ -471,6 +471,43 @@ def _perm_ref_cases(ctx, scale):
             return
 
 
+def _offset_cases(ctx, scale):
+    """Records in which one channel carries a static offset larger than its own fluctuation, under orthogonal mixing and under
+    a gain: the transformations act on the offset like on the rest of the record (an implementation that treats channels
+    one by one - centring some, not others - is not covariant)."""
+    rng = ctx.rng
+    kinds = ["SSIcov", "SSIdat", "SSIcovR", "pLSCF"]
+    for it in range(ctx.n(8, 48) * scale):
+        kind = kinds[it % 4]
+        tr = "orth" if it % 8 < 6 else "gain"
+        nch = rng.randint(2, 4)
+        fs = rng.choice([20.0, 50.0])
+        y = _signal(ctx, nch, rng.randint(1200, 2000), fs, nmodes=rng.randint(1, 2))
+        j = rng.randrange(nch)
+        y[:, j] = y[:, j] + rng.choice([-1, 1]) * rng.choice([1.5, 3.0, 20.0]) * float(np.std(y[:, j]))
+        br = rng.randint(5, 8)
+        p = dict(nxseg=128, sd=rng.choice(["per", "cor"]), pov=0.5, br=br, ordmax=min(rng.randint(4, 8), br * nch), pl_ord=rng.randint(3, 5), ref=None)
+        inp = {"class": kind, "transformation": tr, "fs": fs, "params": dict(p), "offset_channel": j, "case": f"seed{ctx.seed}#offset{it}"}
+        try:
+            base = _run(kind, y, fs, p, [])
+        except Exception as e:  # noqa: BLE001
+            ctx.skipped += 1
+            ctx.count(f"base_failed_{kind}_{type(e).__name__}")
+            continue
+        y2, fs2, p2, _sel, kf, rowmap, tinfo = _transform_single(ctx, y, fs, p, [], tr)
+        inp["t"] = tinfo
+        try:
+            new = _run(kind, y2, fs2, p2, [])
+        except Exception as e:  # noqa: BLE001
+            ctx.oracle_cases += 1
+            ctx.violation(f"{kind}:{tr}:transformed-run-fails", f"{kind}: run on {tr}-transformed data raises {type(e).__name__}: {str(e)[:100]} while the original run succeeds", inp)
+            return
+        ctx.count(f"cases_offset_{tr}")
+        ctx.nontrivial.add((kind, "offset", tr))
+        if not _cmp_tables(ctx, base["tables"], new["tables"], kf, rowmap, f"{kind}:{tr}", inp, fs2):
+            return
+
+
 def oracle(ctx, scale):
     rng = ctx.rng
     for it in range(ctx.n(3, 20) * scale):
@@ -478,6 +515,9 @@ def oracle(ctx, scale):
         if ctx.violations:
             return
     _perm_ref_cases(ctx, scale)
+    if ctx.violations:
+        return
+    _offset_cases(ctx, scale)
     if ctx.violations:
         return
     n = ctx.n(5, 25) * scale
